@@ -168,7 +168,7 @@ CORPUS = [
 
 
 def generate(rng, tier):
-    n = 1200 if tier == "quick" else 24000
+    n = 1200 if tier == "quick" else 72000
     cases = list(CORPUS)
     for i in range(n):
         cases.append(_gen_case(rng, malformed=(i % 6 == 5), kind=KINDS[i % 4]))
@@ -315,6 +315,9 @@ def _walk(case, obs):
         if last is not None and t < last:
             return fails, stats      # decreasing request: outside the domain from here on
         last = t
+        if r[0] == "ok" and not all(np.isfinite(v) for v in r[1]):
+            fails.append(f"pull at {t} delivered a non-finite value {r[1]}")
+            return fails, stats
         if r[0] != "ok" or len(r[1]) != n:
             fails.append(f"in-range request {t} (range [{times[0]},{times[-1]}]) returned {r}")
             continue
